@@ -71,7 +71,7 @@ EffectStoresOnce == form # "RULE" => InsertOnce(R, EffRows)
 RejectIffUnroutable == form # "RULE" => (Expect.rej <=> \E i \in DOMAIN rows : ~RoutableVal(R, EffRows[i]))
 
 InsRec == [kind |-> "ins", rule |-> R.id, form |-> form, seqm |-> seqm, rows |-> EffRows,
-           src |-> rows, expect |-> Expect]
+           src |-> rows, rowok |-> [i \in DOMAIN rows |-> RoutableVal(R, EffRows[i])], expect |-> Expect]
 
 Emit == EmitCases => PrintT(<<"CASE", ToJson(IF form = "RULE" THEN RuleDesc(R) ELSE InsRec)>>)
 =============================================================================
